@@ -77,6 +77,12 @@ func WellFormedOrigin(s string) bool {
 	if !ok || scheme == "" || host == "" {
 		return false
 	}
+	// documented domain of the library: schemes of at most 64 bytes, domain names of at most 253 bytes (not
+	// counting a trailing dot); longer ones are a grey zone (with `*` configured the preflight path still
+	// insists on a parseable origin) and are not judged
+	if len(scheme) > 64 || len(strings.TrimSuffix(host, ".")) > 253 {
+		return false
+	}
 	for i := 0; i < len(scheme); i++ {
 		c := scheme[i]
 		switch {
